@@ -8,6 +8,7 @@ Sessions for the two small protocols:
 import Grevm.Model.WaitSlot
 import Grevm.Model.RunOnce
 import Grevm.Model.Guard
+import Grevm.Model.Facade
 import Grevm.Driver.Kernel
 
 namespace Grevm.Driver.Small
@@ -148,5 +149,37 @@ def guardTable : String := Id.run do
   for e in bs do for p in bs do for s in bs do for c in bs do for pb in bs do for d in bs do
     out := out.push s!"{b2s e}{b2s p}{b2s s}{b2s c}{b2s pb}{b2s d}={(Guard.effective e p s c pb d).code}"
   return " ".intercalate out.toList
+
+/-- `facade`: one line per precompile invocation: `<static 0/1> <op><result> …` with op in
+    {0 balance, 1 sload, 2 set_balance, 3 sstore} and result in {0 ok, 1 halt, 2 fatal}, e.g.
+    `1 10 31 21`.  Replayed through `Facade.runOps` (no database failures): the kind of every
+    result must be the model's. -/
+def replayFacade (lines : List String) : String := Id.run do
+  let mut idx := 0
+  for line in lines do
+    match words line with
+    | st :: calls =>
+        let s0 : Facade.FState :=
+          { j := { bal := fun _ => 1, stor := fun _ _ => 1, loaded := [] }, isStatic := st == "1", fault := none }
+        let ops : List (Facade.Op × Nat) := calls.filterMap fun c =>
+          match c.toList with
+          | [o, r] =>
+              let op : Option Facade.Op := match o with
+                | '0' => some (.balance 1) | '1' => some (.sload 1 0)
+                | '2' => some (.setBalance 1 2) | '3' => some (.sstore 1 0 2) | _ => none
+              let rk : Option Nat := match r with | '0' => some 0 | '1' => some 1 | '2' => some 2 | _ => none
+              match op, rk with
+              | some op, some rk => some (op, rk)
+              | _, _ => none
+          | _ => none
+        if ops.length != calls.length then return s!"diverge {idx} unparsable: {line}"
+        let (_, rs) := Facade.runOps (fun _ => false) s0 (ops.map (·.1))
+        let kinds := rs.map fun r => match r with
+          | .ok _ => 0 | .err (.halt _) => 1 | .err (.fatal _) => 2
+        if kinds != ops.map (·.2) then
+          return s!"diverge {idx} static={st}: implementation result kinds {ops.map (·.2)}, model {kinds} :: {line.trimAscii.toString}"
+    | [] => pure ()
+    idx := idx + 1
+  return s!"ok {idx}"
 
 end Grevm.Driver.Small
